@@ -343,6 +343,64 @@ fn silent_upstream(lead: u32, step: u32) -> Result<(u32, Vec<u32>, Option<u32>),
 	Ok((in_cltv, deliv, close_h))
 }
 
+/// (round 5) A -> B -> C, C fails the HTLC (update_fail_htlc + commitment_signed), B answers with revoke_and_ack + its own
+/// commitment_signed, and C never revokes: the outbound HTLC is gone from B's holder commitment and from C's CURRENT
+/// commitment but C's PREVIOUS commitment (still unrevoked, still broadcastable) carries it. Returns (outCltv, heights
+/// delivered to B, height at which a transaction spending the B-C funding output reached B's broadcaster).
+fn prev_counterparty_only(lead: u32, step: u32) -> Result<(u32, Vec<u32>, Option<u32>), String> {
+	use ldk_verif_harness::sim::leak;
+	use lightning::ln::functional_test_utils::*;
+	use lightning::ln::msgs::{BaseMessageHandler, ChannelMessageHandler};
+	let cfg = Some(test_legacy_channel_config());
+	let chanmon_cfgs = leak(create_chanmon_cfgs(3));
+	let node_cfgs = leak(create_node_cfgs(3, chanmon_cfgs));
+	let node_chanmgrs = leak(create_node_chanmgrs(3, node_cfgs, &[cfg.clone(), cfg.clone(), cfg]));
+	let nodes = create_network(3, node_cfgs, node_chanmgrs);
+	let ids: Vec<PublicKey> = nodes.iter().map(|n| n.node.get_our_node_id()).collect();
+	create_announced_chan_between_nodes(&nodes, 0, 1);
+	let (_, _, chan_bc, funding_bc) = create_announced_chan_between_nodes(&nodes, 1, 2);
+	let maxh = nodes.iter().map(|n| n.best_block_info().1).max().unwrap();
+	for n in &nodes { let dd = maxh - n.best_block_info().1; if dd > 0 { connect_blocks(n, dd); } }
+	let (_preimage, hash, _, _) = route_payment(&nodes[0], &[&nodes[1], &nodes[2]], 1_000_000);
+	let out_cltv = nodes[1].node.list_channels().iter().find(|c| c.channel_id == chan_bc).and_then(|c| c.pending_outbound_htlcs.first().map(|h| h.cltv_expiry)).ok_or("no outbound HTLC on B-C")?;
+	nodes[2].node.fail_htlc_backwards(&hash);
+	let _ = nodes[2].node.get_and_clear_pending_events();
+	nodes[2].node.process_pending_htlc_forwards();
+	check_added_monitors(&nodes[2], 1);
+	let updates = get_htlc_update_msgs(&nodes[2], &ids[1]);
+	if updates.update_fail_htlcs.len() != 1 { std::mem::forget(nodes); return Err("C did not fail the HTLC".into()); }
+	nodes[1].node.handle_update_fail_htlc(ids[2], &updates.update_fail_htlcs[0]);
+	nodes[1].node.handle_commitment_signed_batch_test(ids[2], &updates.commitment_signed);
+	check_added_monitors(&nodes[1], 1);
+	// B's revoke_and_ack + commitment_signed reach C (so that C's new commitment exists), C's revoke_and_ack is dropped
+	let (b_raa, b_cs) = get_revoke_commit_msgs(&nodes[1], &ids[2]);
+	nodes[2].node.handle_revoke_and_ack(ids[1], &b_raa);
+	check_added_monitors(&nodes[2], 1);
+	nodes[2].node.handle_commitment_signed_batch_test(ids[1], &b_cs);
+	check_added_monitors(&nodes[2], 1);
+	let _ = nodes[2].node.get_and_clear_pending_msg_events();
+	let _ = nodes[1].node.get_and_clear_pending_events(); let _ = nodes[1].node.get_and_clear_pending_msg_events();
+	let grace = vh::consts::LATENCY_GRACE_PERIOD_BLOCKS as u32;
+	let best = nodes[1].best_block_info().1;
+	let target = out_cltv + grace;
+	if target <= best + lead { std::mem::forget(nodes); return Err("trigger height already passed".into()); }
+	*nodes[1].connect_style.borrow_mut() = ConnectStyle::BestBlockFirst;
+	connect_blocks(&nodes[1], target - lead - best);
+	let spent_bc = |nodes: &Vec<Node>| nodes[1].tx_broadcaster.txn_broadcasted.lock().unwrap().iter().any(|tx| tx.input.iter().any(|i| i.previous_output.txid == funding_bc.compute_txid()));
+	if spent_bc(&nodes) { std::mem::forget(nodes); return Err("B-C commitment broadcast before the sweep started".into()); }
+	*nodes[1].connect_style.borrow_mut() = if step > 1 { ConnectStyle::BestBlockFirstSkippingBlocks } else { ConnectStyle::BestBlockFirst };
+	let mut deliv = vec![]; let mut close_h = None;
+	for _ in 0..(lead + 6) {
+		connect_blocks(&nodes[1], step);
+		let h = nodes[1].best_block_info().1; deliv.push(h);
+		if spent_bc(&nodes) { close_h = Some(h); break; }
+	}
+	let _ = nodes[1].node.get_and_clear_pending_events(); let _ = nodes[1].node.get_and_clear_pending_msg_events();
+	nodes[1].chain_monitor.added_monitors.lock().unwrap().clear();
+	std::mem::forget(nodes);
+	Ok((out_cltv, deliv, close_h))
+}
+
 fn main() {
 	let args = &parse_args("c08");
 	let mut rec = Rec::new(&args.out, "c08");
@@ -564,6 +622,25 @@ fn main() {
 				},
 				Ok(Err(e)) => { rec.discarded += 1; rec.notes.insert(format!("silent_upstream lead={} step={}", lead, step), e); },
 				Err(p) => rec.oracle_fail(format!("silent-upstream scenario panicked: {}", p.chars().take(300).collect::<String>())),
+			}
+		}
+	}
+	// (10) round 5: the outbound HTLC survives ONLY in the counterparty's PREVIOUS (unrevoked) commitment: the trigger must still
+	// fire at the first delivered height >= expiry + grace (the peer can still broadcast that commitment).
+	{
+		let plans: Vec<(u32, u32)> = if args.thorough { vec![(3, 1), (4, 3), (2, 1), (5, 2)] } else { vec![(3, 1), (4, 3)] };
+		for (lead, step) in plans {
+			match guarded(std::panic::AssertUnwindSafe(move || prev_counterparty_only(lead, step))) {
+				Ok(Ok((out_cltv, deliv, close_h))) => {
+					let first = deliv.iter().copied().find(|h| *h >= out_cltv + grace as u32);
+					if close_h != first { rec.oracle_fail(format!("HTLC only in the counterparty's PREVIOUS unrevoked commitment (expiry {}): B went on chain at {:?}, first delivered height >= expiry + grace is {:?} (delivered {:?}, step {})", out_cltv, close_h, first, deliv, step)); }
+					for h in &deliv {
+						let fired = close_h == Some(*h);
+						rec.case(&format!("monscan 0 0 {} counterpartyPrev:1:{}:0", h, out_cltv), if fired { "true" } else { "false" }, &format!("e2e:monscan prev-counterparty-only fired={}", fired), true);
+					}
+				},
+				Ok(Err(e)) => { rec.discarded += 1; rec.notes.insert(format!("prev_counterparty_only lead={} step={}", lead, step), e); },
+				Err(p) => rec.oracle_fail(format!("prev-counterparty-only scenario panicked: {}", p.chars().take(300).collect::<String>())),
 			}
 		}
 	}
